@@ -54,6 +54,110 @@ func uniT(n int) []*doc.Tree {
 		Attr: "rule", AttrNames: []string{"a", "x"}, Vals: []string{"1", "2", "x", ""}})
 }
 
+// uniDeep: "spine" documents — a chain of k nested elements (names over {a,b}),
+// k = 4..maxDepth, optionally with one extra leaf (element a, text, comment)
+// attached below one spine element, attributes by rule. Small in number, deep
+// in structure: reaches depth thresholds the T(<=N) universes cannot.
+func uniDeep(maxDepth int) []*doc.Tree {
+	key := fmt.Sprintf("Deep%d", maxDepth)
+	uniMu.Lock()
+	if t, ok := uniCache[key]; ok {
+		uniMu.Unlock()
+		return t
+	}
+	uniMu.Unlock()
+	var out []*doc.Tree
+	leaves := []doc.Spec{{K: "e", N: "a"}, {K: "t", V: "1"}, {K: "c", V: "2"}}
+	for k := 4; k <= maxDepth; k++ {
+		for code := 0; code < 1<<uint(k); code++ {
+			names := make([]string, k)
+			for i := range names {
+				names[i] = []string{"a", "b"}[code>>uint(i)&1]
+			}
+			if code%3 != 0 && k > 4 {
+				continue // a fixed third of the name assignments for the longer spines
+			}
+			build := func(extraAt int, leaf *doc.Spec, before bool) *doc.Tree {
+				var mk func(i int) doc.Spec
+				mk = func(i int) doc.Spec {
+					s := doc.Spec{K: "e", N: names[i]}
+					switch i % 4 {
+					case 1:
+						s.A = []doc.AttrS{{N: "a", V: "1"}}
+					case 2:
+						s.A = []doc.AttrS{{N: "a", V: "2"}, {N: "x", V: "x"}}
+					}
+					var kids []doc.Spec
+					if i+1 < k {
+						kids = append(kids, mk(i+1))
+					}
+					if leaf != nil && extraAt == i {
+						if before {
+							kids = append([]doc.Spec{*leaf}, kids...)
+						} else {
+							kids = append(kids, *leaf)
+						}
+					}
+					s.C = kids
+					return s
+				}
+				return doc.Build([]doc.Spec{mk(0)})
+			}
+			out = append(out, build(-1, nil, false))
+			for at := 0; at < k; at++ {
+				for li := range leaves {
+					if (at+li+code)%2 == 0 {
+						out = append(out, build(at, &leaves[li], (at+li)%2 == 0))
+					}
+				}
+			}
+		}
+	}
+	uniMu.Lock()
+	uniCache[key] = out
+	uniMu.Unlock()
+	return out
+}
+
+// uniWide: one parent element with 5..maxKids children over {a, b, text}.
+func uniWide(maxKids int) []*doc.Tree {
+	key := fmt.Sprintf("Wide%d", maxKids)
+	uniMu.Lock()
+	if t, ok := uniCache[key]; ok {
+		uniMu.Unlock()
+		return t
+	}
+	uniMu.Unlock()
+	var out []*doc.Tree
+	vals := []string{"1", "2", "x"}
+	for n := 5; n <= maxKids; n++ {
+		total := 1
+		for i := 0; i < n; i++ {
+			total *= 3
+		}
+		for code := 0; code < total; code++ {
+			c := code
+			var kids []doc.Spec
+			for i := 0; i < n; i++ {
+				switch c % 3 {
+				case 0:
+					kids = append(kids, doc.Spec{K: "e", N: "a", A: attrIf(i%2 == 0, "a", vals[i%3])})
+				case 1:
+					kids = append(kids, doc.Spec{K: "e", N: "b"})
+				default:
+					kids = append(kids, doc.Spec{K: "t", V: vals[i%3]})
+				}
+				c /= 3
+			}
+			out = append(out, doc.Build([]doc.Spec{{K: "e", N: "b", C: []doc.Spec{{K: "e", N: "a", C: kids}}}}))
+		}
+	}
+	uniMu.Lock()
+	uniCache[key] = out
+	uniMu.Unlock()
+	return out
+}
+
 func uniTExact(n int) []*doc.Tree {
 	return trees(fmt.Sprintf("TE%d", n), &doc.Universe{MinN: n, MaxN: n, Names: []string{"a", "b"},
 		Attr: "rule", AttrNames: []string{"a", "x"}, Vals: []string{"1", "2", "x", ""}})
